@@ -106,8 +106,11 @@ Proof.
     + unfold final_set in Hf. destruct (fres s), (fexc s); try discriminate. repeat split.
 Qed.
 
+Lemma sv_query_gen prep h s : same_view s (fst (query_gen prep h s)).
+Proof. unfold query_gen. destruct (pool_of _ _); repeat split. Qed.
+
 Lemma sv_query h s : same_view s (fst (query h s)).
-Proof. unfold query. destruct (pool_of _ _); repeat split. Qed.
+Proof. apply sv_query_gen. Qed.
 
 Lemma ss_on_timeout n s : SStep s (on_timeout true n s).
 Proof.
@@ -148,13 +151,15 @@ Proof.
       eapply SStep_same_l; [exact Hs0|apply ss_send_request].
 Qed.
 
+Lemma ss_submit_task t s : SStep s (submit_task true t s).
+Proof. unfold submit_task. destruct (shut s); [apply ss_set_final_exception|left; repeat split]. Qed.
+
 Lemma ss_retry reuse h s : SStep s (retry true reuse h s).
 Proof.
   unfold retry. set (s1 := set_retries (retries s + 1) s).
   assert (H1 : same_view s s1) by (repeat split).
-  destruct (is_some (fexc s1)); [left; exact H1|]. destruct (shut s1).
-  - eapply SStep_same_l; [exact H1|apply ss_set_final_exception].
-  - left. repeat split.
+  destruct (is_some (fexc s1)); [left; exact H1|].
+  eapply SStep_same_l; [exact H1|apply ss_submit_task].
 Qed.
 
 Lemma ss_start_refresh s : SStep s (start_refresh true s).
@@ -172,11 +177,12 @@ Qed.
 
 Lemma ss_set_result a h k s : SStep s (set_result true a h k s).
 Proof.
-  destruct k as [more| |d| | | |]; cbn [set_result].
+  destruct k as [more| |d| | | | |]; cbn [set_result].
   - apply ss_set_final_rows.
   - apply ss_set_final_result.
   - destruct d; try apply ss_retry; [apply ss_set_final_exception|apply ss_set_final_result].
   - apply ss_set_final_exception.
+  - apply ss_submit_task.
   - apply ss_start_refresh.
   - apply ss_start_chain.
   - eapply SStep_same_l; [apply sv_cancel|apply ss_set_final_exception].
@@ -188,6 +194,23 @@ Proof.
   destruct reuse; [|apply ss_send_request].
   pose proof (sv_query h s) as Hq. destruct (query h s) as [s1 r]. cbn [fst] in Hq.
   destruct r; [left; assumption|]. eapply SStep_same_l; [eassumption|apply ss_send_request].
+Qed.
+
+Lemma ss_query_then_send prep h s :
+  SStep s (let '(s1, r) := query_gen prep h s in match r with Some _ => s1 | None => send_request true true s1 end).
+Proof.
+  pose proof (sv_query_gen prep h s) as Hq. destruct (query_gen prep h s) as [s1 r]. cbn [fst] in Hq.
+  destruct r; [left; assumption|]. eapply SStep_same_l; [eassumption|apply ss_send_request].
+Qed.
+
+Lemma ss_run_task t s : SStep s (run_task true t s).
+Proof.
+  destruct t as [reuse h|h|h a pk]; cbn [run_task].
+  - apply ss_retry_task.
+  - apply (ss_query_then_send true h s).
+  - unfold after_prepare. destruct (is_some (fexc s)); [apply SStep_refl|].
+    destruct pk; [apply (ss_query_then_send false h s)|apply ss_set_final_exception|apply ss_set_final_exception
+                  |apply ss_send_request|apply ss_set_final_exception].
 Qed.
 
 (* the invariant on the view *)
@@ -222,22 +245,26 @@ Proof. intros H. eapply SInv_SStep; [exact H|left; apply sv_start_timer]. Qed.
 
 Lemma SInv_step pf s o : SInv s -> SInv (step true pf s o).
 Proof.
-  intros H. destruct o as [|ps|d|a k|k|k|pl| | |c h err| |k]; cbn [step];
-    [| | | | | | | | |eapply SInv_SStep; [exact H|apply ss_ks_report]|eapply SInv_SStep; [exact H|left; repeat split]|
+  intros H. destruct o as [|ps|d|a k|k|k|pl| | |c h err|a pk|fh| |k]; cbn [step];
+    [| | | | | | | | |eapply SInv_SStep; [exact H|apply ss_ks_report]|
+     destruct (nth_error (attempts s) a) as [at_|]; [|assumption]; destruct (aopen at_ && aprep at_); [|assumption];
+       eapply SInv_SStep; [exact H|eapply SStep_same_l; [|apply ss_submit_task]; repeat split]|
+     assumption|
+     eapply SInv_SStep; [exact H|left; repeat split]|
      destruct (refreshes s) as [|n]; [assumption|destruct (k <=? n)%nat; [|assumption];
        eapply SInv_SStep; [exact H|eapply SStep_same_l; [|apply ss_set_final_result]; repeat split]]].
   - eapply SInv_SStep; [exact H|]. eapply SStep_same_l; [|apply ss_send_request]. repeat split.
   - eapply SInv_SStep; [exact H|left; repeat split].
   - eapply SInv_SStep; [exact H|left; repeat split].
-  - destruct (nth_error (attempts s) a) as [at_|]; [|assumption]. destruct (aopen at_); [|assumption].
+  - destruct (nth_error (attempts s) a) as [at_|]; [|assumption]. destruct (aopen at_ && negb (aprep at_)); [|assumption].
     destruct (astale at_); [eapply SInv_SStep; [exact H|left; repeat split]|].
     eapply SInv_SStep; [exact H|]. eapply SStep_same_l; [|apply ss_set_result]. repeat split.
   - destruct (nth_error (timers s) k) as [t|]; [|assumption].
     destruct (live t && (due t <=? now s)); [|assumption].
     eapply SInv_SStep; [exact H|].
     destruct (tk t); (eapply SStep_same_l; [|first [apply ss_on_spec|apply ss_on_timeout]]; repeat split).
-  - destruct (nth_error (queue s) k) as [[reuse h]|]; [|assumption].
-    eapply SInv_SStep; [exact H|]. eapply SStep_same_l; [|apply ss_retry_task]. repeat split.
+  - destruct (nth_error (queue s) k) as [t|]; [|assumption].
+    eapply SInv_SStep; [exact H|]. eapply SStep_same_l; [|apply ss_run_task]. repeat split.
   - destruct (paging s); [|assumption]. unfold next_page.
     eapply SInv_SStep; [|apply ss_send_request]. apply SInv_start_timer.
     assert (Hreset : SInv (page_reset pl s)).
@@ -417,23 +444,33 @@ Proof.
 Qed.
 
 (* _query *)
+Lemma query_gen_shape prep h s :
+  let '(s1, r) := query_gen prep h s in
+  queue s1 = queue s /\ paging s1 = paging s /\ tfired s1 = tfired s /\ fres s1 = fres s /\ fexc s1 = fexc s /\
+  (cur_conn s <> None -> cur_conn s1 <> None) /\
+  match r with
+  | Some _ => attempts s1 = attempts s ++ [mkAtt h true false prep] /\ cur_conn s1 <> None
+  | None => attempts s1 = attempts s
+  end.
+Proof.
+  unfold query_gen. destruct (pool_of _ _); cbn; repeat split; try (intros _; discriminate); try discriminate; try tauto.
+Qed.
+
 Lemma query_shape h s :
   let '(s1, r) := query h s in
   queue s1 = queue s /\ paging s1 = paging s /\ tfired s1 = tfired s /\ fres s1 = fres s /\ fexc s1 = fexc s /\
   (cur_conn s <> None -> cur_conn s1 <> None) /\
   match r with
-  | Some _ => attempts s1 = attempts s ++ [mkAtt h true false] /\ cur_conn s1 <> None
+  | Some _ => attempts s1 = attempts s ++ [mkAtt h true false false] /\ cur_conn s1 <> None
   | None => attempts s1 = attempts s
   end.
-Proof.
-  unfold query. destruct (pool_of _ _); cbn; repeat split; try (intros _; discriminate); try discriminate; try tauto.
-Qed.
+Proof. exact (query_gen_shape false h s). Qed.
 
 Lemma query_chains h s : chains (fst (query h s)) = chains s.
-Proof. unfold query. destruct (pool_of _ _); reflexivity. Qed.
+Proof. unfold query, query_gen. destruct (pool_of _ _); reflexivity. Qed.
 
 Lemma query_refreshes h s : refreshes (fst (query h s)) = refreshes s.
-Proof. unfold query. destruct (pool_of _ _); reflexivity. Qed.
+Proof. unfold query, query_gen. destruct (pool_of _ _); reflexivity. Qed.
 
 Lemma AStep_tfired b s : AStep s (set_tfired b s).
 Proof. unfold AStep. cbn. tauto. Qed.
@@ -493,7 +530,7 @@ Proof.
     destruct Hq as (q1 & q2 & q3 & q4 & q5 & q6 & q7). cbn [fst] in Hqc, Hqr.
     assert (Hs1 : BStep s s1).
     { right. unfold final_set. rewrite q1, q3, q4, q5, Hqc, Hqr. repeat split. destruct r.
-      - destruct q7 as (q7 & _). exists [mkAtt h true false]. split; [exact q7|reflexivity].
+      - destruct q7 as (q7 & _). exists [mkAtt h true false false]. split; [exact q7|reflexivity].
       - exists []. rewrite app_nil_r. split; [exact q7|reflexivity]. }
     destruct r.
     + eapply BStep_trans; [exact Hs1|]. apply BStep_frame; repeat split.
@@ -580,9 +617,20 @@ Proof. intros Ha Hf. split; [exact Ha|]. split; intros _; exact Hf. Qed.
 Lemma nth_upd_nth_same {A} (f : A -> A) : forall k l, nth_error (upd_nth k f l) k = option_map f (nth_error l k).
 Proof. induction k as [|k IH]; intros l; destruct l as [|x l]; cbn; try reflexivity. apply IH. Qed.
 
+Lemma LInv_submit t s1 : AInv s1 -> attempts s1 <> [] -> (tfired s1 = true -> final_set s1 = true) -> LInv (submit_task g t s1).
+Proof.
+  intros HA Hne HB. unfold submit_task. destruct (shut s1).
+  - apply LInv_final; [|apply final_after_exception].
+    eapply AInv_AStep; [exact HA|apply AStep_frame, fl_set_final_exception].
+  - destruct HA as (h1 & h2 & h3). split; [|split].
+    + unfold AInv. cbn. repeat split; tauto.
+    + exact HB.
+    + unfold cur_answered. cbn [queue set_queue]. destruct (queue s1); cbn; rewrite !andb_false_r; discriminate.
+Qed.
+
 Lemma LInv_step pf s o : LInv s -> LInv (step g pf s o).
 Proof.
-  intros H. destruct o as [|ps|d|a k|k|k|pl| | |c hh err| |kk]; cbn [step].
+  intros H. destruct o as [|ps|d|a k|k|k|pl| | |c hh err|a pk|fh| |kk]; cbn [step].
   - (* Send *)
     eapply LInv_steps; [exact H| |].
     + eapply AStep_trans; [|apply send_loop_A]. apply AStep_frame. repeat split.
@@ -590,8 +638,8 @@ Proof.
   - eapply LInv_steps; [exact H|apply AStep_frame|apply BStep_frame]; repeat split.
   - eapply LInv_steps; [exact H|apply AStep_frame|apply BStep_frame]; repeat split.
   - (* Resp *)
-    destruct (nth_error (attempts s) a) as [at_|] eqn:En; [|assumption]. destruct (aopen at_); [|assumption].
-    set (s1 := set_attempts (upd_nth a close (attempts s)) s).
+    destruct (nth_error (attempts s) a) as [at_|] eqn:En; [|assumption]. destruct (aopen at_ && negb (aprep at_)); [|assumption].
+    set (s1 := clear_req a (set_attempts (upd_nth a close (attempts s)) s)).
     destruct H as ((A1 & A2 & A3) & (B1 & B2)).
     assert (Hne : attempts s <> []) by (eapply remove_nth_some; exact En).
     assert (HA1 : AInv s1).
@@ -602,25 +650,20 @@ Proof.
     assert (Hfin_e : forall e s2, AInv s2 -> LInv (set_final_exception g e s2)).
     { intros e s2 Hs2. apply LInv_final; [|apply final_after_exception].
       eapply AInv_AStep; [exact Hs2|apply AStep_frame, fl_set_final_exception]. }
+    assert (Hne1 : attempts s1 <> []) by (cbn; intros E; apply upd_nth_nil in E; contradiction).
     assert (Hretry : forall reuse, LInv (retry g reuse (ahost at_) s1)).
     { intros reuse. unfold retry. set (s2 := set_retries (retries s1 + 1) s1).
-      change (fexc s2) with (fexc s). change (shut s2) with (shut s).
+      change (fexc s2) with (fexc s).
       destruct (fexc s) eqn:Ee; cbn [is_some].
       - apply LInv_final; [exact HA1|]. unfold final_set. cbn. rewrite Ee. apply orb_true_r.
-      - destruct (shut s); [apply Hfin_e; exact HA1|]. split.
-        + unfold AInv. cbn. repeat split; try tauto.
-          * intros _ E. apply upd_nth_nil in E. contradiction.
-          * intros _ E. apply upd_nth_nil in E. contradiction.
-        + split.
-          * exact B1.
-          * unfold cur_answered. cbn. destruct (queue s); cbn; rewrite andb_false_r; discriminate. }
+      - apply LInv_submit; [exact HA1|exact Hne1|exact B1]. }
     destruct (astale at_) eqn:Est.
     { split; [exact HA1|]. split; [exact B1|]. intros Hall. apply B2.
-      unfold cur_answered in *. cbn [attempts queue chains refreshes s1 set_attempts] in Hall.
+      unfold cur_answered in *. cbn [attempts queue chains refreshes s1 set_attempts clear_req set_cur_req] in Hall.
       rewrite (forallb_close_stale _ _ _ En Est) in Hall.
       destruct (attempts s) eqn:Ea; [contradiction|].
       destruct (upd_nth a close (a0 :: l)) eqn:Eu; [apply upd_nth_nil in Eu; discriminate|]. exact Hall. }
-    destruct k as [more| |d| | | |]; cbn [set_result].
+    destruct k as [more| |d| | | | |]; cbn [set_result].
     + apply LInv_final; [|apply final_after_rows].
       destruct (rows_frame (10 + Z.of_nat a) more s1) as (r1 & r2 & r3).
       destruct HA1 as (h1 & h2 & h3). unfold AInv. rewrite r1, r2, r3. repeat split; try assumption.
@@ -628,6 +671,7 @@ Proof.
     + apply Hfin_r, HA1.
     + destruct d; [apply Hretry|apply Hretry|apply Hfin_e, HA1|apply Hfin_r, HA1].
     + apply Hfin_e, HA1.
+    + apply LInv_submit; [exact HA1|exact Hne1|exact B1].
     + unfold start_refresh. change (shut s1) with (shut s). destruct (shut s); [apply Hfin_r, HA1|].
       split; [exact HA1|]. split; [exact B1|].
       unfold cur_answered. cbn [refreshes set_refreshes]. cbn [Nat.eqb]. rewrite !andb_false_r. discriminate.
@@ -645,16 +689,18 @@ Proof.
     + eapply LInv_steps; [exact H|eapply AStep_trans; [exact HA|apply on_spec_A]|eapply BStep_trans; [exact HB|apply on_spec_B]].
     + eapply LInv_steps; [exact H|eapply AStep_trans; [exact HA|apply on_timeout_A]|eapply BStep_trans; [exact HB|apply on_timeout_B]].
   - (* Run *)
-    destruct (nth_error (queue s) k) as [[reuse h]|] eqn:En; [|assumption].
+    destruct (nth_error (queue s) k) as [t|] eqn:En; [|assumption].
     set (s1 := set_queue (remove_nth k (queue s)) s).
     destruct H as ((A1 & A2 & A3) & (B1 & B2)).
     assert (Hq : queue s <> []) by (eapply remove_nth_some; exact En).
     assert (Hne : attempts s <> []) by tauto.
     assert (Hc : cur_conn s <> None) by tauto.
-    unfold retry_task. change (fexc s1) with (fexc s).
-    destruct (fexc s) eqn:Ee; cbn [is_some].
-    { apply LInv_final; [|unfold final_set; cbn; rewrite Ee; apply orb_true_r].
-      unfold AInv. cbn. repeat split; tauto. }
+    assert (HA1 : AInv s1) by (unfold AInv; cbn; repeat split; tauto).
+    assert (Hfexc : forall z, fexc s = Some z -> LInv s1).
+    { intros z Ee. apply LInv_final; [exact HA1|]. unfold final_set. cbn. rewrite Ee. apply orb_true_r. }
+    assert (Hfin_e : forall e, LInv (set_final_exception g e s1)).
+    { intros e. apply LInv_final; [|apply final_after_exception].
+      eapply AInv_AStep; [exact HA1|apply AStep_frame, fl_set_final_exception]. }
     assert (Hsend : forall s2, attempts s2 <> [] -> cur_conn s2 <> None -> paging s2 = paging s ->
               tfired s2 = tfired s -> final_set s2 = final_set s -> LInv (send_request g true s2)).
     { intros s2 h1 h2 h3 h4 h5.
@@ -669,21 +715,28 @@ Proof.
           fold (send_request g true s2) in Ho.
           apply existsb_open_not_answered in Ho. unfold cur_answered in Hall. rewrite Ho in Hall.
           rewrite andb_false_r in Hall. discriminate. }
-    destruct reuse; [|apply Hsend; try reflexivity; assumption].
-    pose proof (query_shape h s1) as Hqs. destruct (query h s1) as [s2 r].
-    destruct Hqs as (q1 & q2 & q3 & q4 & q5 & q6 & q7). destruct r.
-    + destruct q7 as (q7 & q8). split.
-      * unfold AInv. rewrite q7, q2. repeat split; intros; try assumption;
-          intros E; apply app_eq_nil in E; destruct E; discriminate.
-      * split.
-        -- unfold final_set. rewrite q3, q4, q5. exact B1.
-        -- unfold cur_answered. rewrite q7, forallb_app. cbn. rewrite andb_false_r, andb_false_r. discriminate.
-    + apply Hsend.
-      * rewrite q7. exact Hne.
-      * apply q6. exact Hc.
-      * rewrite q2. reflexivity.
-      * rewrite q3. reflexivity.
-      * unfold final_set. rewrite q4, q5. reflexivity.
+    assert (Hqs : forall prep h, LInv (let '(s2, r) := query_gen prep h s1 in
+                                       match r with Some _ => s2 | None => send_request g true s2 end)).
+    { intros prep h. pose proof (query_gen_shape prep h s1) as Hqs. destruct (query_gen prep h s1) as [s2 r].
+      destruct Hqs as (q1 & q2 & q3 & q4 & q5 & q6 & q7). destruct r.
+      + destruct q7 as (q7 & q8). split.
+        * unfold AInv. rewrite q7, q2. repeat split; intros; try assumption;
+            intros E; apply app_eq_nil in E; destruct E; discriminate.
+        * split.
+          -- unfold final_set. rewrite q3, q4, q5. exact B1.
+          -- unfold cur_answered. rewrite q7, forallb_app. cbn. rewrite andb_false_r, andb_false_r. discriminate.
+      + apply Hsend.
+        * rewrite q7. exact Hne.
+        * apply q6. exact Hc.
+        * rewrite q2. reflexivity.
+        * rewrite q3. reflexivity.
+        * unfold final_set. rewrite q4, q5. reflexivity. }
+    destruct t as [reuse h|h|h a0 pk]; cbn [run_task].
+    + unfold retry_task. change (fexc s1) with (fexc s). destruct (fexc s) eqn:Ee; cbn [is_some]; [exact (Hfexc _ eq_refl)|].
+      destruct reuse; [exact (Hqs false h)|apply Hsend; try reflexivity; assumption].
+    + exact (Hqs true h).
+    + unfold after_prepare. change (fexc s1) with (fexc s). destruct (fexc s) eqn:Ee; cbn [is_some]; [exact (Hfexc _ eq_refl)|].
+      destruct pk; [exact (Hqs false h)|apply Hfin_e|apply Hfin_e|apply Hsend; try reflexivity; assumption|apply Hfin_e].
   - (* NextPage *)
     destruct (paging s) eqn:Ep; [|assumption].
     destruct H as ((A1 & A2 & A3) & (B1 & B2)).
@@ -734,6 +787,14 @@ Proof.
       assert (Hin : In (x0 :: l0, e || err) (upd_nth c (fun _ => (x0 :: l0, e || err)) (chains s))).
       { eapply nth_error_In. rewrite nth_upd_nth_same. rewrite En. reflexivity. }
       specialize (Hall _ Hin). discriminate.
+  - (* PResp *)
+    destruct (nth_error (attempts s) a) as [at_|] eqn:En; [|assumption]. destruct (aopen at_ && aprep at_); [|assumption].
+    destruct H as ((A1 & A2 & A3) & (B1 & B2)).
+    assert (Hne : attempts s <> []) by (eapply remove_nth_some; exact En).
+    apply LInv_submit; [| |exact B1].
+    + unfold AInv. cbn. repeat split; try tauto; intros _ E; apply upd_nth_nil in E; contradiction.
+    + cbn. intros E. apply upd_nth_nil in E. contradiction.
+  - assumption.
   - (* Shutdown *)
     eapply LInv_steps; [exact H|apply AStep_frame|apply BStep_frame]; repeat split.
   - (* RunRefresh *)
